@@ -65,7 +65,10 @@ class Chains:
         shape = (rows,) if ndim == 1 else (rows, cols)
         pool = [self.rand_index(U, shape) for _ in range(2)]
         for _ in range(steps):
-            pool = [p for p in pool if wellformed(p)]
+            # an operation's result stays in play while the dense array it stands for is well defined - also when the
+            # library has left an entry without rows behind (C07's business at that step, but what later operations
+            # make of it is part of this history)
+            pool = [p for p in pool if wellformed(p, allow_empty=True)]
             if not pool:
                 pool = [self.rand_index(U, shape)]
             idx = rnd.choice(pool)
